@@ -17,8 +17,10 @@ RULE = ("real float64 matrices with 1..60 rows and 1..10 columns drawn from rand
         "distinct = (routine, matrix kind, n, r, tol, maxK, minK, min_add_K, flags); non-trivial = tall matrix with r >= 2 or n > r+1")
 TRUSTED = ["LAPACK getrf/trtrs and BLAS ger called by the routines; NumPy matmul/SVD used by the oracle",
            "tolerances: C·A[idx]=A and C[idx]=I to 1e-8 (scaled max-norm); |C|<=tol and row norms <= tol with relative slack 1e-9 / 1e-6 "
-           "(row norms are maintained by down-dating, so rounding of order n·eps·|C|^2 is allowed); inputs have cond(A) <= 1e6 after row "
-           "equilibration of the chosen kind so that these tolerances cannot be reached by rounding alone",
+           "(row norms are maintained by down-dating, so rounding of order n·eps·|C|^2 is allowed); tall inputs whose non-tiny rows, after column "
+           "equilibration, have sigma_min/sigma_max < 1e-6 are discarded so that these tolerances cannot be reached by rounding alone",
+           "one report per case: when several clauses fail on the same case only the most fundamental one (order in PRIORITY) is reported, so that "
+           "one root cause gives one finding class",
            "the iteration cap is detected from outside: if max|C| > tol the routine is re-run with the cap doubled — a different answer means "
            "the cap had been hit (allowed by the property, counted), the same answer means the loop stopped on its own with |C| > tol (reported)"]
 ASSUMPTIONS = ["float64 real matrices", "the square-routine clauses are claimed for tall matrices of full column rank; numerically "
